@@ -293,6 +293,14 @@ func GenProgram(r *Rand, o ProgOpts) []Op {
 		case 3:
 			t := Op{K: "txn", Commit: r.Bool(0.8)}
 			m := r.Range(1, 6)
+			if o.Big && r.Bool(0.03) {
+				// a commit of a thousand and more operations
+				for j, k := 0, r.Range(1030, 2600); j < k; j++ {
+					t.Sub = append(t.Sub, Op{K: "put", Key: []byte(fmt.Sprintf("many/%04d", j)), Tag: nextTag(), Len: r.Range(0, 6)})
+				}
+				t.Commit = true
+				m = 0
+			}
 			if o.Big && r.Bool(0.1) {
 				// a commit larger than the log's 64 KB write buffer
 				for j, k := 0, r.Range(3, 5); j < k; j++ {
